@@ -680,6 +680,14 @@ static std::vector<Deviation> deviations(World& w, const Snap& b, bool cyc_befor
             if (hit) break;
         }
     }
+    // a copy (shallow or deep) holds the raw cells of its source: raw cells are shared, never duplicated
+    if (k == "cl") {
+        std::vector<int> r0 = b.ra, r1 = a.ra;
+        std::sort(r0.begin(), r0.end());
+        std::sort(r1.begin(), r1.end());
+        if (r0 != r1)
+            note(v, 0, "copy_from:raw-cells-differ", "after `" + op + "` the copy holds " + std::to_string(r1.size()) + " raw cells, its source " + std::to_string(r0.size()));
+    }
     // R7 / R8: misuse of rename_cell accepted silently
     if (k == "rnp" || k == "rnn") {
         int c = -1;
@@ -786,8 +794,9 @@ static std::vector<Deviation> deviations(World& w, const Snap& b, bool cyc_befor
 
 static void keep_best(Deviation& best, const std::vector<Deviation>& v) {
     for (auto& d : v) {
-        if (best.key == "top_level:wrong-set") return;  // a failure that is not one of the recorded defects is never displaced
-        if (best.rank < 0 || d.rank < best.rank || d.key == "top_level:wrong-set") best = d;
+        auto fresh = [](const std::string& key) { return key == "top_level:wrong-set" || key == "copy_from:raw-cells-differ"; };
+        if (fresh(best.key)) return;  // a failure that is not one of the recorded defects is never displaced
+        if (best.rank < 0 || d.rank < best.rank || fresh(d.key)) best = d;
     }
 }
 
